@@ -832,6 +832,46 @@ Proof.
     + unfold app_col. destruct (w_data w); [contradiction|discriminate].
 Qed.
 
+Lemma index_preserved_rows K ri ci (h : row -> row) (D : list row) :
+  (forall r, In r D -> fst (h r) = fst r /\ nth ri (snd (h r)) POISON = nth ri (snd r) POISON /\
+                       nth ci (snd (h r)) POISON = nth ci (snd r) POISON) ->
+  build_index K (map (mkp ri ci) (map h D)) = build_index K (map (mkp ri ci) D).
+Proof.
+  intros H. apply build_index_ext. induction D as [|r t IH]; cbn [map]; [constructor|].
+  constructor; [|apply IH; intros r' Hr'; apply H; right; exact Hr'].
+  destruct (H r (or_introl eq_refl)) as [H0 [H1 H2]]. unfold mkp, rkey. cbn [pid pconc plang].
+  rewrite H0, H1, H2. auto.
+Qed.
+
+(* wl[id, name] = v keeps the invariant as long as it does not write into the
+   concept or the language column; ids and indexes are untouched *)
+Theorem set_cell_wf K w id s v w' :
+  wf K w -> set_cell w id s v = Some w' ->
+  (forall k, resolve_item (w_names w) s = Some k -> k <> w_ri w /\ k <> w_ci w) ->
+  wf K w' /\ map fst (w_data w') = map fst (w_data w) /\ w_index w' = w_index w
+  /\ w_ri w' = w_ri w /\ w_ci w' = w_ci w.
+Proof.
+  intros W H G. unfold set_cell in H.
+  destruct (resolve_item (w_names w) s) as [k|]; [|discriminate].
+  destruct (row_of (w_data w) id); [|discriminate].
+  inversion H. subst w'. clear H. cbn [w_data w_index w_ri w_ci].
+  destruct (G k eq_refl) as [G1 G2]. destruct W as [Wi Wd Wp Wl Wn].
+  set (h := fun r : Z * list cell => if fst r =? id then (fst r, upd k v (snd r)) else r) in *.
+  assert (Hf : forall r, fst (h r) = fst r) by (intros r; unfold h; destruct (fst r =? id); reflexivity).
+  assert (Em : map fst (map h (w_data w)) = map fst (w_data w)).
+  { rewrite map_map. apply map_ext. exact Hf. }
+  split; [|auto].
+  constructor; cbn [w_data w_index w_ri w_ci].
+  - rewrite Wi. symmetry. apply index_preserved_rows. intros r _. split; [apply Hf|].
+    unfold h. destruct (fst r =? id); [|split; reflexivity]. cbn [snd].
+    split; apply nth_upd_other; congruence.
+  - rewrite Em. exact Wd.
+  - intros r Hr. apply in_map_iff in Hr. destruct Hr as [r0 [<- Hr0]]. rewrite Hf. exact (Wp r0 Hr0).
+  - intros r Hr. apply in_map_iff in Hr. destruct Hr as [r0 [<- Hr0]]. unfold h.
+    destruct (fst r0 =? id); [cbn [snd]; rewrite upd_length|]; exact (Wl r0 Hr0).
+  - destruct (w_data w); [contradiction|discriminate].
+Qed.
+
 (* ============================== the theorems, for any well-formed wordlist *)
 Definition names_inj (K : keys) (w : wl) : Prop :=
   key_inj K (map (rkey (w_ci w)) (w_data w)) /\ key_inj K (map (rkey (w_ri w)) (w_data w)).
